@@ -1099,6 +1099,13 @@ func (st *State) specCall(e *SExpr, env *specEnv) Value {
 			}
 			st.res.Assumed["byte model: a byte range is the concatenation of its two parts (instances named by bsplit in the contracts)"] = true
 			return Value{T: boolT, S: SBool, Term: "true"}
+		case "arrayof":
+			// arrayof(s): the backing array of the slice s (a reference; nil for a nil slice)
+			x := st.evalSpec(args[0], env)
+			if x.S != SSlice {
+				env.fail("arrayof(%s): not a slice", args[0])
+			}
+			return Value{S: SRef, Term: app("s_ref", x.Term)}
 		case "allocated":
 			// allocated(x): x is nil or an object that exists by now (so that a later allocation cannot alias it)
 			x := st.evalSpec(args[0], env)
@@ -1118,6 +1125,48 @@ func (st *State) specCall(e *SExpr, env *specEnv) Value {
 				env.fail("box of a value without a Go type")
 			}
 			return st.makeInterface(x, x.T, types.NewInterfaceType(nil, nil))
+		case "apply":
+			// apply(f, a...): what the statically known function value f (a closure of the caller)
+			// returns for the arguments a, taken from a PROVED clause `ensures result == E` of
+			// f's own contract (E evaluated with f's parameters bound to a and its captured
+			// variables to their current values). Without such a clause nothing is known.
+			fv := st.evalSpec(args[0], env)
+			var def *SExpr
+			if fv.Fn != nil {
+				if c := st.eng.fnContract[fv.Fn]; c != nil && !c.Trusted && len(c.Props) > 0 {
+					for _, en := range c.Ensures {
+						if e := en.Expr; e.Kind == KBinary && e.Op == "==" && e.Args[0].Kind == KIdent && e.Args[0].Name == "result" {
+							def = e.Args[1]
+							c.Used = true
+							break
+						}
+					}
+				}
+			}
+			if def == nil || len(args)-1 != len(fv.Fn.Params) {
+				return st.freshValue("applied", boolT)
+			}
+			sub := &specEnv{st: st, vars: map[string]Value{}, heap: env.heap, old: env.heap, topOld: env.topOld, facts: env.facts}
+			for p := fv.Fn; p != nil; p = p.Parent() {
+				if p.Pkg != nil {
+					sub.pkg = p.Pkg.Pkg
+				}
+			}
+			for i, fvar := range fv.Fn.FreeVars {
+				if i < len(fv.Bind) && fv.Bind[i].Loc != nil {
+					sub.vars[fvar.Name()] = st.readLoc(fv.Bind[i].Loc)
+				}
+			}
+			for i, p := range fv.Fn.Params {
+				a := st.evalSpec(args[1+i], env)
+				if a.Untyped != nil || a.T == nil {
+					a = st.coerceTo(a, st.eng.te.SortOf(p.Type()), env)
+					a.T = p.Type()
+				}
+				sub.vars[p.Name()] = a
+			}
+			sub.oldVars = sub.vars
+			return st.evalSpec(def, sub)
 		case "pure_fn":
 			// pure_fn(f): calling the function value f changes nothing the caller can observe
 			x := st.evalSpec(args[0], env)
